@@ -73,7 +73,26 @@ def seeded_tbl():
     return "\n".join(rows)
 
 
-SECTIONS = {"status": status, "defects": defects, "seeded": seeded_tbl}
+def harmless_tbl():
+    f = V / "seeded" / "harmless" / "results.json"
+    if not f.exists():
+        return "(no results yet)"
+    r = json.loads(f.read_text())
+    rows = ["| Rewrite | Prop | Kind | Files touched (changed lines) | `./check` first run | `./check` now | What broke at first (theorem / stream) |", "|---|---|---|---|---|---|---|"]
+    for b, e in sorted(r.items()):
+        why = "; ".join(w[:120] for w in e.get("first_why", e.get("why", []))[:3])
+        rows.append(f"| {b} | {e['property']} | {e['kind']} | {esc(', '.join(x.replace('spsdk/', '') for x in e['files']))} ({e['changed_lines']}) | {e.get('first_result', '-')} | {e.get('result', '-')} | {esc(why) if e.get('first_result') != 'exit 0' else ''} |")
+    n = len(r)
+    f0 = sum(1 for e in r.values() if e.get("first_result") == "exit 0")
+    n0 = sum(1 for e in r.values() if e.get("result") == "exit 0")
+    rest = sorted(b for b, e in r.items() if e.get("result") not in ("exit 0", None))
+    rows.append("")
+    rows.append(f"{n} behaviour-preserving rewrites: {f0} left the check green as it was, {n0} do now; "
+                + ("still reported: " + ", ".join(f"{b} ({r[b]['result']})" for b in rest) + "." if rest else "none is reported any more."))
+    return "\n".join(rows)
+
+
+SECTIONS = {"status": status, "defects": defects, "seeded": seeded_tbl, "harmless": harmless_tbl}
 p = V / "DESIGN.md"
 s = p.read_text()
 for name, fn in SECTIONS.items():
